@@ -65,3 +65,45 @@ Theorem C04_top_level_assign_is_global : forall n e e',
   resolve (NAssign (NName n) e) [] = Some (NAssign (NName n) e', []).
 Proof. exact top_level_assign_is_global. Qed.
 Print Assumptions C04_top_level_assign_is_global.
+
+(* ---- a call cannot disturb its caller: the built-in calls, as compiled and run ---- *)
+Require Import Calc.ExprSem Calc.ExprVM Calc.ExprCorrect Calc.ExprSession Calc.StmtSem Calc.StmtRel Calc.StmtCorrect.
+
+(* the meaning the compiled call nm(e) has (C01_statement_compiled) changes no global binding *)
+Theorem C04_builtin_call_changes_no_global : forall Bf n W nm e W' res,
+  ssem Bf n W (NCall (NName nm) [e]) = Some (W', res) -> w_glob W' = w_glob W.
+Proof.
+  intros Bf n W nm e W' res H. apply ssem_call in H. destruct H as (b & mo & fid & _ & _ & _ & H).
+  destruct (den (w_glob W) e) as [x|err]; destruct H as [-> _]; [|reflexivity].
+  destruct b; reflexivity.
+Qed.
+Print Assumptions C04_builtin_call_changes_no_global.
+
+(* g = nm(e) binds g and nothing else *)
+Theorem C04_assignment_from_call_binds_only_its_target : forall Bf n W g nm e W' res g',
+  pure e = true -> g' <> g ->
+  ssem Bf n W (NAssign (NName g) (NCall (NName nm) [e])) = Some (W', res) ->
+  gval (w_glob W') g' = gval (w_glob W) g'.
+Proof.
+  intros Bf n W g nm e W' res g' Hp Hne H.
+  apply (ssem_assign_call Bf n W g (NCall (NName nm) [e]) W' res eq_refl) in H. destruct H as [n' [-> H]].
+  destruct (ssem Bf n' W (NCall (NName nm) [e])) as [[W1 [y|err]]|] eqn:E; [| |contradiction].
+  - pose proof (C04_builtin_call_changes_no_global Bf n' W nm e W1 (Ok y) E) as EG.
+    destruct (is_nil y); destruct H as [-> _].
+    + rewrite EG. reflexivity.
+    + cbn [wglob w_glob]. rewrite EG. apply gval_set_other. congruence.
+  - destruct H as [-> _]. rewrite (C04_builtin_call_changes_no_global Bf n' W nm e W1 (Fail err) E). reflexivity.
+Qed.
+Print Assumptions C04_assignment_from_call_binds_only_its_target.
+
+(* and, run by the VM from any state, the call leaves every frame, the closure stack and every stack cell
+   below it as they were (msame in RunsS): the callee's frame is gone when it returns *)
+Theorem C04_compiled_call_restores_the_caller : forall Bf nm b e d s s' w,
+  bop_of_name nm = Some b -> pure e = true -> wfcs s ->
+  Compile.comp (NCall (NName nm) [e]) 0 (tfl d) s = COk (w, s') ->
+  SpecS Bf (NCall (NName nm) [e]) d 0 s s' w.
+Proof.
+  intros Bf nm b e d s s' w Hb Hp Hwf H.
+  apply (comp_stmt Bf (NCall (NName nm) [e])); [cbn [wstmt is_bcall]; rewrite Hb; exact Hp|reflexivity|exact Hwf|exact H].
+Qed.
+Print Assumptions C04_compiled_call_restores_the_caller.
